@@ -259,7 +259,9 @@ struct W1 {
         T = build_tissue(pl);
 #if DYNAMIC_MODEL_INDEX == 0
         // damp_x = damping * dt / (lightest node mass): lets plans reach the heavily damped regime (> 1: the friction term reverses the momentum) whatever the meshes weigh
-        if (pl.p.count("damp_x")) { double mmin = 1e300; for (auto& c : T.cells) if (!c->is_static()) mmin = std::min(mmin, c->get_node_mass()); if (mmin < 1e300 && mmin > 0) T.params.damping_coefficient_ = pl.get("damp_x") * mmin / T.params.time_step_; }
+        if (pl.p.count("damp_x")) { // node masses as they will be after the first refinement pass (mass per node = density * volume / nodes): a coarse generator mesh would otherwise be split in iteration 1 and push damping*dt/m far beyond the drawn value, into the regime where the scheme itself diverges
+            { local_mesh_refiner pre(T.params.min_edge_len_, 3 * T.params.min_edge_len_, T.params.enable_edge_swap_operation_); for (auto& c : T.cells) if (!c->is_static()) { try { pre.refine_mesh(c); } catch (std::exception&) {} } }
+            double mmin = 1e300; for (auto& c : T.cells) if (!c->is_static()) mmin = std::min(mmin, c->get_node_mass()); if (mmin < 1e300 && mmin > 0) T.params.damping_coefficient_ = pl.get("damp_x") * mmin / T.params.time_step_; }
 #endif
         // (the ids the cells arrive with are replaced by the solver's constructor: only ids seen from there on count as used)
         int team = pl.geti("team", 1);
